@@ -483,21 +483,25 @@ PROPS['C11'] = {
 }
 PROPS['C03'] = {
     'modules': ['IpcModel.Props.C03'],
-    'theorems': ['C03.C03_roots', 'C03.C03_iff', 'C03.C03_held_sender_connected', 'Ledger.inv_run'],
+    'theorems': ['C03.C03_roots', 'C03.C03_iff', 'C03.C03_held_sender_connected', 'Ledger.inv_run', 'C03.C03_refine', 'C03.C03_unix_iff', 'Refine.sim_step',
+                 'Reach.reachG_iff'],
     'builds': ['default', 'force-inprocess'],
     'scenarios': world_scen(['default', 'force-inprocess'], 400, 8000),
     'search': search_world,
     'rule': ('seeded histories of clone / embed-in-message / extract / drop-handle / drop-carrying-receiver over an acyclic family of up to 6 channels (handles are embedded only '
              'in lower-numbered channels), each receive issued as recv, try_recv or try_recv_timeout, followed by a final sweep of try_recv on every held receiver; results '
-             '(message / empty / disconnected / send error) compared with Ideal.run; non-trivial = at least one message carrying handles was received; distinct = distinct program'),
+             '(message / empty / disconnected / send error) compared with Ideal.run and, on the OS build, with the descriptor-level model Unix.run (which must also find the program valid); non-trivial = at least one message carrying handles was received; distinct = distinct program'),
     'explanation': ('roots_coincide (open descriptor <=> owned by a live handle) proved for all histories; the specification Ideal (disconnected <=> empty queue and no sender handle '
-                    'reachable) stated and its receive clauses proved; the refinement between the transport and Ideal is checked by executing seeded histories, not proved'),
+                    'reachable) stated and its receive clauses proved; the refinement Unix (descriptor level: close-only, kernel reachability) => Ideal (explicit destruction cascade) '
+                    'proved for all valid programs (C03_refine); the real OS transport is tied to Unix.run and the in-process transport to Ideal.run by executing seeded histories'),
     'assumptions': ['kernel liveness of a socket = reachability from descriptor tables through queued SCM_RIGHTS packets (Linux)', 'acyclic channel families only',
                     'wake-up of a blocked receive on last drop is exercised by the race in the sched/crash scenarios of C12, not here'],
     'level_text': ('Kernel-checked: after any history the open descriptors are exactly those owned by live handles (the roots of kernel liveness and of specification existence '
-                   'coincide), and the specification answers disconnected iff the queue is empty and no sender handle is reachable; the transport-vs-specification refinement '
-                   'itself is established by differential execution of seeded histories on the OS and in-process builds (partial)'),
-    'level_note': 'Trusted: Lean kernel, harness; Linux reachability semantics for in-flight descriptors; the simulation relation is not a theorem',
+                   'coincide), the specification answers disconnected iff the queue is empty and no sender handle is reachable, and the descriptor-level model (handles = '
+                   'descriptors, drop = close, existence = kernel reachability) refines the specification for every valid program (simulation relation proved, Unix => Ideal); '
+                   'the real crate is tied to the descriptor-level model by differential execution of seeded histories (OS build vs Unix.run, in-process build vs Ideal.run)'),
+    'level_note': ('Trusted: Lean kernel, harness; Linux reachability semantics for in-flight descriptors (immediate for acyclic families - the property\'s quantifier; for cycles the '
+                   'kernel collector is asynchronous and nothing is claimed about timing); multi-threaded wake-up of a blocked receive is exercised, not modelled'),
 }
 PROPS['C09'] = {
     'modules': ['IpcModel.Props.C09'],
@@ -519,22 +523,29 @@ PROPS['C09'] = {
     'level_note': 'Trusted: Lean kernel, harness; kernel wake-up of a blocked sender; the NoHang model is a hand-written abstraction of send() tied by the vanish scenario only',
 }
 PROPS['C19'] = {
-    'modules': ['IpcModel.Props.C03', 'IpcModel.Props.C09'],
-    'theorems': ['C03.C03_iff', 'C09.C09_error', 'C09.C09_transit'],
+    'modules': ['IpcModel.Props.C19', 'IpcModel.Props.C03', 'IpcModel.Props.C09'],
+    'theorems': ['C19.C19_refine', 'C19.C19_step', 'C19.C19_same_world', 'C19.C19_alive_is_reachability', 'C19.C19_receivers_unique', 'Refine.rel_kill',
+                 'Refine.dropHandles_char', 'Reach.reachG_iff', 'C03.C03_iff', 'C09.C09_error', 'C09.C09_transit'],
     'builds': ['default', 'memfd', 'force-inprocess'],
     'scenarios': (lambda a: (lambda tier, seed: a(tier, seed) + [{'build': b, 'args': ['set', '--seed', str(seed + k), '--n', str((3000 if tier == 'thorough' else 200) // 2), '--tier', tier]}
                                                        for b in ('default', 'memfd') for k in range(2)]))(world_scen(['default', 'memfd', 'force-inprocess'], 300, 6000)),
     'search': search_world,
     'rule': ('receiver-set scripts (incl. bursts of more than 10 ready members and long per-member backlogs) on the OS and memfd builds compared with the set model; '
              'the same seeded single-threaded program (same seed => same operation choices as long as results agree) of ~40 operations over up to 6 channels is executed on the '
-             'OS transport, the memfd build and the in-process transport; each result sequence is compared with Ideal.run (hence pairwise); non-trivial = a message with handles '
-             'was received; distinct = distinct (build, program)'),
-    'explanation': 'three-way differential against the executable specification; the clauses of the specification are theorems; the refinement is not',
-    'assumptions': ['programs are restricted to operations whose outcome the ideal model defines; receiver sets and one-shot servers are compared in C06/C08 scenarios, not here'],
-    'level_text': ('The specification (ideal unbounded FIFO with handle-carrying messages, existence = reachability) is executable Lean with its receive/send clauses proved; all three '
-                   'builds are run on the same seeded programs and must produce exactly the specification\'s result sequence (differential, partial: no refinement theorem)'),
-    'level_note': 'Trusted: Lean kernel for the specification clauses only; agreement of the transports with it is established by differential execution',
-    'technique': 'executable Lean specification + three-way differential execution (refinement not proved)',
+             'OS transport, the memfd build and the in-process transport; each result sequence is compared with Ideal.run (hence pairwise) and, on the OS and memfd builds, with the '
+             'descriptor-level model Unix.run, which must also report the program valid (the hypothesis of C19_refine); non-trivial = a message with handles was received; '
+             'distinct = distinct (build, program)'),
+    'explanation': ('refinement theorem between the two executable readings (Unix: descriptors, close-only, kernel reachability; Ideal: explicit destruction cascade = what the '
+                    'in-process transport does) for all valid programs; each real build is tied to its reading by running the same seeded programs'),
+    'assumptions': ['programs are restricted to operations whose outcome the ideal model defines; receiver sets and one-shot servers are compared in C06/C08 scenarios, not here',
+                    'kernel: a socket exists iff reachable from a descriptor table through queued SCM_RIGHTS packets (immediate for acyclic families)'],
+    'level_text': ('Kernel-checked: for every valid program the descriptor-level reading (what the OS and memfd transports do) and the specification (what the in-process transport '
+                   'does: ideal unbounded FIFO with handle-carrying messages, existence = reachability, explicit destruction cascade) return the same result for every operation '
+                   '(C19_refine, by a simulation relation over all states); receiver handles stay unique; the reachability iteration is a true fixed point. The three real builds '
+                   'are tied to the two readings by executing the same seeded programs (differential)'),
+    'level_note': ('Trusted: Lean kernel; the harness; that the OS transport is the descriptor-level reading and the in-process transport the cascade reading is checked by '
+                   'differential execution on seeded programs, not proved from the Rust source; kernel reachability semantics'),
+    'technique': 'Lean 4 refinement theorem (descriptor-level model => ideal FIFO specification) + differential execution of the three builds against the two executable models',
 }
 
 
